@@ -162,6 +162,9 @@ let read_gop () : C.gop =
   | "S" -> let b = pos () in let i = nat_of_int (int ()) in C.GBmSet (b, i)
   | "C" -> let b = pos () in let i = nat_of_int (int ()) in C.GBmClr (b, i)
   | "T" -> let b = pos () in let i = nat_of_int (int ()) in let ex = pos () in C.GBmGuard (b, i, ex)
+  | "H" -> let k1 = pos () in let n1 = int () = 1 in let v1 = operand () in let inner = times (int ()) read_op in
+    let k2 = pos () in let n2 = int () = 1 in let v2 = operand () in let ex = pos () in
+    C.GGuard2 (k1, n1, v1, inner, k2, n2, v2, ex)
   | _ -> failwith "gop"
 let read_gfunc () : C.gfunc =
   times (int ()) (fun () ->
@@ -183,6 +186,32 @@ let do_un () : string =
   let after = read_gfunc () in
   if C.validate_uninit h before after then "1" else "0"
 
+(* ---- exceptions validator: "xc <0 | 1 dl gblock> <nerr syms> xfunc gfunc"
+   xfunc = <nblocks> (label handler(0=none) <nops> (op ek)* term)*
+   ek = n | m k | f k | a k z | v <nprobes> op* k1 op k2 *)
+let read_gblock () : C.gblock =
+  let ops = times (int ()) read_gop in
+  let t = read_term () in { C.g_ops = ops; g_term = t }
+let read_ek () : C.ekind =
+  match next () with
+  | "n" -> C.ENever
+  | "m" -> C.EMagic (pos ())
+  | "f" -> C.EFalse (pos ())
+  | "a" -> let k = pos () in let z = pos () in C.EAlways (k, z)
+  | "v" -> let ps = times (int ()) read_op in let k1 = pos () in let call = read_op () in let k2 = pos () in C.EOverlap (ps, k1, call, k2)
+  | _ -> failwith "ek"
+let do_xc () : string =
+  let df = if int () = 0 then None else (let dl = pos () in let b = read_gblock () in Some (dl, b)) in
+  let errsyms = plist () in
+  let before = times (int ()) (fun () ->
+      let l = pos () in
+      let h = int () in
+      let ops = times (int ()) (fun () -> let o = read_op () in let e = read_ek () in { C.x_op = o; x_ek = e }) in
+      let t = read_term () in
+      (l, { C.xb_ops = ops; xb_term = t; xb_handler = (if h = 0 then None else Some (pos_of_int h)) })) in
+  let after = read_gfunc () in
+  if C.validate_exceptions df errsyms before after then "1" else "0"
+
 let handle (ws : string list) : string =
   match ws with
   | "vt" :: r -> toks := r; do_vt ()
@@ -191,5 +220,6 @@ let handle (ws : string list) : string =
   | "fe" :: r -> toks := r; do_fe ()
   | "ap" :: r -> toks := r; do_ap ()
   | "un" :: r -> toks := r; do_un ()
+  | "xc" :: r -> toks := r; do_xc ()
   | _ -> "!BAD"
 let () = main handle
